@@ -479,6 +479,14 @@ impl<T: Clone + Eq + Debug + Default> WrappedBlock<T> {
                                 if self.allow_overflow {
                                     split_idx = c.len_utf8();
                                     wpos += c_w;
+                                    // Keep following zero-width characters
+                                    // (combining marks) with their character.
+                                    for c2 in piece.s[bpos + split_idx..].chars() {
+                                        if UnicodeWidthChar::width(c2) != Some(0) {
+                                            break;
+                                        }
+                                        split_idx += c2.len_utf8();
+                                    }
                                     break;
                                 } else {
                                     return Err(TooNarrow);
